@@ -94,11 +94,26 @@ def load_contracts(prop):
     return mods
 
 
+class WatchdogTimeout(BaseException):
+    """raised by the per-task watchdog; a BaseException so that neither the code under test nor a leg's own `except Exception` swallows it"""
+
+
 def _run_task(idx_prop):
     prop, idx, seed = idx_prop
     task = REGISTRY[prop][idx]
     random.seed(seed)
     t0 = time.time()
+    # the real code runs inside every task: a change that makes it loop forever must not hang the check (watchdog by SIGALRM)
+    import signal
+    if task.kind == "sym":
+        limit = task.budget_s + 3 * task.vc_timeout_s + 120        # the explorer enforces budget_s itself between decisions
+    else:
+        limit = max(task.budget_s, 300) * (3 if os.environ.get("VERIF_TIER") == "thorough" else 1)
+
+    def _alarm(signum, frame):
+        raise WatchdogTimeout(f"task still running after {limit} s (the code under test does not terminate on some input, or the task is too large)")
+    old_handler = signal.signal(signal.SIGALRM, _alarm)
+    signal.alarm(int(limit))
     try:
         if task.kind == "sym":
             from . import symx
@@ -111,10 +126,12 @@ def _run_task(idx_prop):
             rep = task.fn(**task.params)
             rep["kind"] = task.kind
             rep.setdefault("name", task.name)
+        signal.alarm(0)
         rep["task"] = task.name
         rep["wall_s"] = round(time.time() - t0, 3)
         return rep
     except BaseException as e:  # noqa
+        signal.alarm(0)
         return dict(task=task.name, kind=task.kind, name=task.name, crashed=True,
                     errors=[dict(kind=type(e).__name__, msg=str(e), tb=traceback.format_exc(limit=10))],
                     wall_s=round(time.time() - t0, 3))
